@@ -296,7 +296,9 @@ func (env *SpecEnv) pureLoad(p Val, t types.Type) Val {
 			case KRef, KPtrField:
 				e.assume(st.reach, sApp("<", v.T, st.get("alloc")))
 			case KSlc:
-				e.assume(st.reach, sApp("<", slcArr(v.T), st.get("alloc")))
+				e.typeInvOnLoad(v, t, st)
+			case KInt:
+				e.typeInvOnLoad(v, t, st)
 			}
 		}
 		return v
@@ -351,8 +353,8 @@ func (env *SpecEnv) field(base Val, name string) Val {
 		T = p.Elem()
 	}
 	// ghost field?
-	if gf, ok := e.W.ghosts[structKey(T)+"."+name]; ok {
-		comp := "gf:" + structKey(T) + "." + name
+	if gk, gf, ok := e.W.ghostFieldKey(T, name); ok {
+		comp := "gf:" + gk
 		e.regComp(comp, "(Array Int "+gf.Sort+")")
 		t := sSel(env.st.get(comp), base.T)
 		if gf.Sort == "Bool" {
